@@ -189,6 +189,8 @@ BRIDGE_NEEDS = {
 # (another iteration order, another accumulator) yields a function that is still equal to the model but that THIS proof does
 # not cover.  For these, a translated function that is not re-proved is recorded (`bridge_modules_not_reproved`) and falls
 # back to the correspondence tie, like an untranslatable one; they add assurance on trees where they check, not detection.
+# hand inductions over the shape of a translated loop inside otherwise shape-independent bridge modules
+SOFT_THEOREMS = {"QhttpBridge.Parser": ["split_eq", "parseHeaderList_run"]}
 SOFT_BRIDGES = ["QhttpBridge.Proxy.OnUpstreamConnected"]
 
 BRIDGES = {
